@@ -170,6 +170,9 @@ func (g *Gen) setup() {
 			st = int64([]uint32{1 | 4, 1 | 4 | 8 | 32, 4 | 8, 1 | 2 | 4 | 8 | 16 | 32}[r.Intn(4)])
 		}
 		op := Op{K: "node_reset", A: a.Idx, N: st}
+		if r.Chance(0.3) {
+			op.W = r.Range(1, 9)
+		}
 		if a.Role == RoleAdversary {
 			// attacker-declared transaction addresses: victims' accounts
 			for _, v := range w.Owners {
@@ -742,6 +745,9 @@ func (g *Gen) genKind(k string) *Op {
 		if r.Chance(0.15) {
 			op.L = []int{g.pickActor(w.Actors).Idx}
 		}
+		if r.Chance(0.35) {
+			op.W = r.Range(1, 9) // carries a description
+		}
 		return op
 	case "node_create":
 		a := g.pickActor(w.Actors)
@@ -889,7 +895,13 @@ func (g *Gen) genKind(k string) *Op {
 				op.A = acc.Idx // submitted by the new account itself (not bound yet)
 			}
 		}
-		switch r.Pick([]float64{10, 1.5, 1.5, 1, 3, 3}) {
+		switch r.Pick([]float64{10, 1.5, 1.5, 1, 3, 3, 2}) {
+		case 6:
+			op.Mis = "eip155mixed"
+			if r.Chance(0.5) {
+				op.Acc = g.pickActor(w.Actors).Idx + 1
+				op.To = owner.Idx + 1
+			}
 		case 1:
 			op.Mis = "badsig"
 		case 2:
